@@ -175,6 +175,11 @@ func checkItemAgainst(v e5.Value, it secs2.Item) error {
 	for _, extra := range []int{0, len(got), len(got) + 17, 1} {
 		buf := make([]byte, len(prefix), len(prefix)+extra)
 		copy(buf, prefix)
+		// the spare capacity is a reused scratch buffer: it holds stale non-zero bytes, every one of
+		// which the encoding must overwrite
+		for i, spare := 0, buf[len(prefix):cap(buf)]; i < len(spare); i++ {
+			spare[i] = 0xA7 ^ byte(i)
+		}
 		res := it.AppendTo(buf)
 		if len(res) != len(prefix)+len(got) || !bytes.Equal(res[:len(prefix)], prefix) || !bytes.Equal(res[len(prefix):], got) {
 			return fmt.Errorf("AppendTo(prefix with spare cap %d) = %s, want prefix||encoding", extra, hexTrunc(res))
